@@ -47,7 +47,24 @@ def tool_env(extra=None):
         e.update(extra)
     return e
 
+# A change that makes a tool hang on every input would otherwise cost (cases x timeout) of wall-clock: after 3 consecutive hangs in one
+# worker process the limit drops to HANG_SHORT seconds (tiny images take milliseconds), after 10 the tool is no longer started and the case is
+# reported as a hang at once.  Any run that finishes normally resets the streak.  Only shortens runs that would be reported as hangs anyway.
+_hang_streak = 0
+HANG_SHORT = 4
 def run(argv, timeout=20, env=None, stdin=None, cwd=None, max_output=64 << 20):
+    global _hang_streak
+    if _hang_streak >= 10 and _hang_streak % 10 != 0:            # every 10th case is still tried, so a streak can end
+        _hang_streak += 1
+        return 'TIMEOUT', '[not started: %d consecutive runs in this worker did not finish within their limit]' % (_hang_streak - 1)
+    if _hang_streak >= 3 and timeout <= 60:                      # explicit long limits (re-runs before calling something a hang) are kept
+        timeout = min(timeout, HANG_SHORT)
+    rc, out = _run_raw(argv, timeout, env, stdin, cwd, max_output)
+    if rc == 'TIMEOUT': _hang_streak += 1
+    else: _hang_streak = 0
+    return rc, out
+
+def _run_raw(argv, timeout=20, env=None, stdin=None, cwd=None, max_output=64 << 20):
     """Run a tool; returns (rc, stdout+stderr text). rc negative = signal, 'TIMEOUT' = timed out (or flooded its output: more than
     max_output bytes, which is treated like non-termination).  Only the first 256 KiB and the last 64 KiB of the output are kept."""
     import select
